@@ -6,7 +6,9 @@ import AslModel.Spec.IntLiteral
 
 mode `c08`   : `<quirks> <formula>` – formula in prefix notation, tokens
                `i:<u64>` `f:<n>` (= n/64) `s:<hex>` `u:<op>` `b:<op>` `c1:<fn>` `c2:<fn>` `c3:<fn>`;
-               quirks = 5 characters `0/1` (potBase firstbitSkip mirrorInt shrArith singleBitArith).
+               quirks = 5 characters `0/1` (potBase firstbitSkip mirrorInt shrArith singleBitArith), or 7
+               (… fnStrConv fnErrRaw; with 5 these two are 0 1 = the code as found);
+               an optional word `sq` before the formula: text = `renderSq f` (character constants '…').
    answer    : `text=<hex> lex=<ok|ne> model=<r> toks=<r> spec=<r>`
                model = `evalStr q (render f)` (tokeniser + token machine on the rendered text),
                toks  = `evalToks (modelM q) (toks f)` (the object of theorem C08_parse),
@@ -69,7 +71,7 @@ def errName : Err → String
   | .divZero => "divZero" | .overRange => "overRange" | .notOneBit => "notOneBit" | .type => "type"
   | .argCnt => "argCnt" | .funcArgCnt => "funcArgCnt" | .funcArg => "funcArg" | .floatOvf => "floatOvf"
   | .argPair => "argPair" | .bracket => "bracket" | .unknownFunc => "unknownFunc" | .symbol => "symbol"
-  | .ub => "ub" | .undef => "undef" | .fuel => "fuel"
+  | .ub => "ub" | .undef => "undef" | .fuel => "fuel" | .internal => "internal" | .silent => "silent"
 
 def hex16 (n : Nat) : String := String.ofList ((List.range 16).reverse.map fun i => hexChar ((n >>> (4 * i)) % 16))
 
@@ -81,7 +83,8 @@ def showRes : Except Err Val → String
 
 def quirksOf (s : String) : Option Quirks :=
   match s.toList with
-  | [a, b, c, d, e] => some ⟨a == '1', b == '1', c == '1', d == '1', e == '1'⟩
+  | [a, b, c, d, e] => some ⟨a == '1', b == '1', c == '1', d == '1', e == '1', false, true⟩
+  | [a, b, c, d, e, f, g] => some ⟨a == '1', b == '1', c == '1', d == '1', e == '1', f == '1', g == '1'⟩
   | _ => none
 
 def valBEq : Val → Val → Bool
@@ -104,10 +107,13 @@ def toksBEq : List Tok → List Tok → Bool
 
 def handle (line : String) : String :=
   match words line with
-  | qs :: ftoks =>
+  | qs :: ftoks0 =>
+    -- an optional `sq` before the formula: string constants spelled as character constants '...'
+    let sq := ftoks0.head? == some "sq"
+    let ftoks := if sq then ftoks0.drop 1 else ftoks0
     match quirksOf qs, parseF ftoks with
     | some q, some (f, []) =>
-      let text := render f
+      let text := if sq then renderSq f else render f
       let tk := toks f
       let lexOk := toksBEq (lex text) tk
       let model := evalStr q text
